@@ -184,6 +184,13 @@ func (sms *sqlMetadataStore) AppendObject(ctx context.Context, tx *sql.Tx, bucke
 		return nil, err
 	}
 
+	// Only the null version is extended in place. When the current version is a
+	// delete marker or a real version (suspended versioning), the result becomes
+	// the new null version and the current row is left untouched.
+	if oldObjectEntity != nil && (oldObjectEntity.IsDeleteMarker || (oldObjectEntity.VersionID != nil && *oldObjectEntity.VersionID != "null")) {
+		return sms.PutObject(ctx, tx, bucketName, obj, nil)
+	}
+
 	if oldObjectEntity != nil {
 		existingParts, err := sms.partRepository.FindPartsByObjectIdOrderBySequenceNumberAsc(ctx, tx, *oldObjectEntity.Id)
 		if err != nil {
